@@ -5,6 +5,7 @@ package main
 import (
 	"fmt"
 	"io"
+	"mime"
 	"sort"
 	"strings"
 	"sync"
@@ -409,8 +410,66 @@ func c03Run(family, cfg, stream string, req, sup *val) caseLine {
 	if delivered == nil {
 		delivered = vNil()
 	}
-	return caseLine{kind: family, fields: []string{cfg, stream, req.String(), sup.String(), outcome, delivered.String(), hx(wire)},
+	qtab := vL()
+	if family == "fetch" {
+		qtab = c03QTable(sup)
+	}
+	return caseLine{kind: family, fields: []string{cfg, stream, req.String(), sup.String(), outcome, delivered.String(), hx(wire), qtab.String()},
 		counts: []string{"family:" + family, "cfg:" + cfg, "stream:" + stream, "outcome:" + outcome}}
+}
+
+// c03QTable: what the real mime package does with the strings of the case (below the modelled interface):
+// ( AE s enc ) = QEncoding.Encode("utf-8", s) when it changes s; ( AD w dec ) = WordDecoder.DecodeHeader(w) (w itself on
+// error, as Options.decodeText does) for every supplied or encoded string containing "=?".
+func c03QTable(sup *val) *val {
+	hasHdr := false
+	seen := map[string]bool{}
+	var strs []string
+	var walk func(v *val)
+	walk = func(v *val) {
+		switch v.k {
+		case 'A':
+			if v.s == "env" || v.s == "bs" {
+				hasHdr = true
+			}
+		case 'S':
+			if !seen[v.s] {
+				seen[v.s] = true
+				strs = append(strs, v.s)
+			}
+		case 'L':
+			for _, k := range v.kids {
+				walk(k)
+			}
+		}
+	}
+	walk(sup)
+	t := vL()
+	if !hasHdr {
+		return t
+	}
+	dec := new(mime.WordDecoder)
+	addDec := func(w string) {
+		if strings.Contains(w, "=?") {
+			d, err := dec.DecodeHeader(w)
+			if err != nil {
+				d = w
+			}
+			t.add(vL(vA("D"), vS(w), vS(d)))
+		}
+	}
+	for _, s := range strs {
+		if len(s) > 20000 {
+			continue
+		}
+		e := mime.QEncoding.Encode("utf-8", s)
+		if e != s {
+			t.add(vL(vA("E"), vS(s), vS(e)))
+			addDec(e)
+		}
+		addDec(s)
+	}
+	return t
 }
 
 func c03SetRanges(ns imap.NumSet) *val {
